@@ -42,6 +42,30 @@ CHECKS = {
         note='Trusted: TLC, probes, the injected Faulty step, file-existence as the meaning of "committed". parallelize upstream failures are covered under C18.',
         technique='TLA+ engine model with fault actions checked by TLC + fault enumeration on the real code judged by TLC trace specs',
         design='6/C04', specs=['Engine.tla', 'EngineTrace.tla', 'FaultRun.tla']),
+    'C05': dict(
+        level='model_checking',
+        text='Engine.tla gives observers a persisted log and a commit flag and finalizers a call counter; TLC checks ObserverComplete, '
+             'AllObserversCommit, FinalizerOnce, FinalizerAtEnd for all programs of length <=3/4 (deleting, filtering and buffering steps '
+             'downstream included). Real runs: every (prefix, observer variant {dump_to_path csv/json, dump_to_zip, stream, checkpoint, '
+             'finalizer with/without stats}, discarding suffix) abstract program recorded by probes and validated by TLC (the finalizer '
+             'callback is a logged event that must occur exactly where the model fires it); on the Menu every real observer kind (printer, '
+             'dumpers, stream, checkpoint, finalizer, update_stats, validate) between 11 real prefixes and 10 discarding suffixes: '
+             'downstream results with vs without it, and what it persisted vs the results of the prefix alone.',
+        note='Premise made explicit: the consumer drains the pipeline (process()/results()). Persisted files are read back by the harness '
+             '(csv/json/ndjson readers of its own), values restricted to ints/decimals/ASCII so codec issues stay under C03/C07.',
+        technique='TLA+ engine model checked with TLC + TLC trace validation of probe-recorded runs + transparency/completeness replay on real observers',
+        design='6/C05', specs=['Engine.tla', 'EngineTrace.tla']),
+    'C06': dict(
+        level='model_checking',
+        text='Engine.tla counts, per source, the rows pulled (inference sample in the package phase, reader pre-read at the first row '
+             'demand) and, per delivery, the read-ahead; TLC checks BoundedLookahead for every program without a buffering step over '
+             'sources longer than the sample (three Sample/Ahead settings) and finds the bound exceeded as soon as a sort step is allowed '
+             '(non-vacuity). Real pipelines of non-buffering Menu steps over counted sources (generators incl. a column that stays empty '
+             'beyond the sample, and load(csv) with a counting tabulator Stream) at two stream lengths: the deliveries observed at the '
+             'end of the pipeline are validated by TLC against LookaheadTrace.tla (bound K(program), causality) and the maximum must be the same at both lengths.',
+        note='K(program) is fixed from the program: 99 rows for iterable sources, 1000 for load(). Quick uses 300/3000 (csv 3000/9000) rows, thorough 1000/100000 (csv 5000/50000).',
+        technique='TLA+ engine model with read-ahead counters checked by TLC + TLC validation of delivery traces recorded from long real runs',
+        design='6/C06', specs=['Engine.tla', 'LookaheadTrace.tla']),
 }
 
 NOT_YET = 'check not built yet (build in progress, see DESIGN.md section 10)'
